@@ -6,16 +6,28 @@ import TTV.Spec.C14
 Input : `(timeout (stop …) broken suppress store nObs setUp body tearDown [real])`,
         stage = `((stage …) (side …) beh)` (the cleanups it registers at its start, its side effects, its behaviour),
         side = `(junk d)` | `logerr` | `dropfailed` | `flush` | `expect`,
-        beh = `ret` | `(raise k)` | `(fire d)` | `(faild d k)` | `never`, k = `err` | `fail` | `skip` | `ki` | `exit`
+        beh = `ret` | `(raise k)` | `(fire d)` | `(faild d k)` | `never`, k = `err` | `fail` | `skip` | `ki` | `exit` | `genexit`,
+        each also `k-nobool` / `k-nolen` (the exception instance is falsy: the same for the runner)
 Trace : `((ev …) stopRequested raised ((name t observers) …) (live …) leftover pending obsRestored realStops finalTime)`,
         name = `setUp` | `body` | `tearDown` | `(cleanup i)`, ev = `startTest` | `success` | `error` | `failure` | `skip` | `stopTest` -/
 namespace TTV.Drv.C14
 open TTV TTV.Sexp TTV.AsyncRun
 
+def excClass? : String → Option Exc
+  | "err" => some .err | "fail" => some .fail | "skip" => some .skip
+  | "ki" => some .ki | "exit" => some .ki                  -- KeyboardInterrupt / SystemExit: the same for the runner
+  | "genexit" => some .ki                                  -- … and GeneratorExit raised by (or failing the Deferred of) a stage
+  | _ => none
+
+/-- `k`, `k-nobool`, `k-nolen`: the truth value of the exception instance (a subclass with `__bool__` returning False / `__len__`
+returning 0) is nothing the runner may look at -/
 def exc? : Sexp → Option Exc
-  | .atom "err" => some .err | .atom "fail" => some .fail | .atom "skip" => some .skip
-  | .atom "ki" => some .ki | .atom "exit" => some .ki      -- KeyboardInterrupt / SystemExit: the same for the runner
-  | .atom "genexit" => some .ki                            -- … and GeneratorExit raised by (or failing the Deferred of) a stage
+  | .atom s =>
+    match s.splitOn "-" with
+    | [k] => excClass? k
+    | [k, "nobool"] => excClass? k
+    | [k, "nolen"] => excClass? k
+    | _ => none
   | _ => none
 
 def beh? : Sexp → Option Beh
